@@ -365,6 +365,39 @@ func ruleR3_5(w *World, r *Report) {
 							if !(found && holds) {
 								bad = append(bad, "a cost literal counts 1 although weights may be present")
 							}
+						} else if wphi, isPhi := add.Y.(*ssa.Phi); isPhi && len(wphi.Edges) == 2 {
+							// `w := 1; if s.minWeights != nil { w = s.minWeights[i] }; cost += w`
+							okOne, okW := false, false
+							for ei, e := range wphi.Edges {
+								if k, isK := constInt(e); isK && k == 1 {
+									found, holds := underCond(wphi.Block().Preds[ei], func(c ssa.Value) (bool, bool) {
+										b2, ok := c.(*ssa.BinOp)
+										if !ok || (b2.Op != token.EQL && b2.Op != token.NEQ) || !isFieldLoadOf(b2.X, "minWeights") || !isNilConst(b2.Y) {
+											return false, false
+										}
+										return true, b2.Op == token.EQL
+									})
+									// the constant edge may come straight from the block of the test (no else branch)
+									if found && holds {
+										okOne = true
+									} else if iff, isIf := wphi.Block().Preds[ei].Instrs[len(wphi.Block().Preds[ei].Instrs)-1].(*ssa.If); isIf {
+										if b2, isB := iff.Cond.(*ssa.BinOp); isB && isFieldLoadOf(b2.X, "minWeights") && isNilConst(b2.Y) {
+											nilEdge := 0 // successor taken when minWeights == nil
+											if b2.Op == token.NEQ {
+												nilEdge = 1
+											}
+											if wphi.Block().Preds[ei].Succs[nilEdge] == wphi.Block() {
+												okOne = true
+											}
+										}
+									}
+								} else if widx, isW := elemOfField(e, "minWeights"); isW && widx == idx {
+									okW = true
+								}
+							}
+							if !okOne || !okW {
+								bad = append(bad, "the amount added is not 1 without weights and the weight of the same cost literal otherwise")
+							}
 						} else if widx, ok := elemOfField(add.Y, "minWeights"); !ok || widx != idx {
 							bad = append(bad, "the amount added is not the weight of the same cost literal")
 						}
